@@ -311,7 +311,74 @@ fn is_json(d: usize) -> bool {
     (11..=16).contains(&d)
 }
 
+/// Fixed regression corpus at the start of the index space (independent of the seed): the inputs
+/// behind every recorded finding and every repaired defect, so that each is exercised on every run.
+pub const CORPUS: u64 = 16;
+
+fn corpus_case(k: u64) -> Case {
+    let known_paths: [(usize, &str); 4] = [(4, "/9"), (2, "/3[]/transports"), (3, "/1/transports"), (0, "/5[]/transports")];
+    if (k as usize) < known_paths.len() {
+        let (decoder, path) = known_paths[k as usize];
+        for j in 0..10_000u64 {
+            let mut rng = Rng::derive(0xC0FFEE, "c15corpus", j * 8 + k);
+            let mut input = seed_for(decoder, &mut rng);
+            let mut hdrs = Vec::new();
+            let mut pos = 0;
+            let _ = walk_cbor(&input, &mut pos, "", &mut hdrs, 0);
+            if let Some(h) = hdrs.iter().find(|h| h.major == 4 && h.path == path) {
+                let new_hdr = cbor_header(4, 1 << 28);
+                let at = h.pos;
+                input.splice(at..at + h.hdr_len, new_hdr);
+                input.truncate(at + 5);
+                return Case { decoder, mutation: format!("len-rewrite(array at {path} -> huge)"), input, aux: vec![] };
+            }
+        }
+    }
+    let c = |decoder: usize, mutation: &str, input: Vec<u8>, aux: Vec<usize>| Case { decoder, mutation: format!("corpus:{mutation}"), input, aux };
+    match k {
+        4 => c(19, "u2f 6-byte frame", vec![0, 1, 0, 0, 0, 0], vec![]),
+        5 => c(19, "u2f declared length beyond the frame", vec![0, 1, 0, 0, 0, 0xff, 0xff, 1, 2, 3], vec![]),
+        6 => c(20, "u2f register payload of 10 bytes", vec![7; 10], vec![]),
+        7 => {
+            let mut d = vec![1u8; 64];
+            d.push(200);
+            d.extend_from_slice(&[2; 5]);
+            c(21, "u2f authenticate handle length beyond the payload", d, vec![3])
+        }
+        8 => {
+            let mut f = vec![0u8, 2, 0x55, 0, 0, 0, 66];
+            f.extend_from_slice(&[1; 64]);
+            f.extend_from_slice(&[1, 9]);
+            c(19, "u2f authenticate with an unknown control byte", f, vec![])
+        }
+        9 => c(22, "hid 7-byte initialisation packet", vec![1, 0, 0, 0, 0x90, 0, 30], vec![7]),
+        10 => {
+            let mut p = vec![1u8, 0, 0, 0, 0x90, 0, 100];
+            p.extend_from_slice(&[5; 57]);
+            p.extend_from_slice(&[1, 0, 0, 0, 0, 9, 9]);
+            c(22, "hid short continuation packet", p, vec![64, 71])
+        }
+        11 => {
+            let mut p = vec![1u8, 0, 0, 0, 0x90, 0, 58];
+            p.extend_from_slice(&[5; 93]);
+            p.extend_from_slice(&[1, 0, 0, 0, 0]);
+            p.extend_from_slice(&[6; 59]);
+            c(22, "hid over-long initialisation packet then continuation", p, vec![100, 164])
+        }
+        12 => {
+            let int = |i: i64| Cbor::Integer(i.into());
+            c(23, "cose key with a 31-byte x coordinate", oracle::cbor_ser(&Cbor::Map(vec![(int(1), int(2)), (int(3), int(-7)), (int(-1), int(1)), (int(-2), Cbor::Bytes(vec![1; 31])), (int(-3), Cbor::Bytes(vec![2; 32]))])), vec![])
+        }
+        13 => c(6, "9-byte array header declaring 2^40 elements", vec![0x9b, 0, 0, 1, 0, 0, 0, 0, 0], vec![]),
+        14 => c(6, "array header declaring 2^24 elements", vec![0x9a, 1, 0, 0, 0], vec![]),
+        _ => c(10, "36-byte authenticator data", vec![0; 36], vec![]),
+    }
+}
+
 fn gen_case(seed: u64, idx: u64) -> Case {
+    if idx < CORPUS {
+        return corpus_case(idx);
+    }
     let mut rng = Rng::derive(seed, "c15", idx);
     let decoder = (idx % DECODERS.len() as u64) as usize;
     let mut input = seed_for(decoder, &mut rng);
@@ -611,6 +678,33 @@ pub fn run(args: &Args) -> Report {
     let engine = args.engine.clone().unwrap_or_else(|| "native".into());
     rep.obs("build", json!(engine));
     rep.obs("allocation_counting", json!(crate::worker::alloc_counting_enabled()));
+    if engine == "miri" {
+        // no sub-processes under the interpreter: run a small non-crypto sample in-process
+        let shard: u64 = args.get("shard").and_then(|s| s.parse().ok()).unwrap_or(0);
+        let shards: u64 = args.get("shards").and_then(|s| s.parse().ok()).unwrap_or(1);
+        crate::worker::install_panic_hook();
+        let n = 1200u64;
+        for k in 0..n {
+            let idx = CORPUS + k * shards + shard;
+            let d = (idx % DECODERS.len() as u64) as usize;
+            if matches!(d, 13 | 14 | 23) {
+                continue; // need key generation / point validation: too slow to interpret
+            }
+            let c = gen_case(args.seed, idx);
+            if c.input.len() > 2048 || c.mutation.contains("huge") || c.mutation.contains("2^24") {
+                continue;
+            }
+            rep.eval();
+            match crate::worker::catch(|| decode(&c)) {
+                Ok(ok) => {
+                    rep.count(if ok { "outcome:accepted" } else { "outcome:rejected" });
+                    rep.nontrivial(fnv(&[&[c.decoder as u8][..], &fnv(&c.input).to_le_bytes()].concat()));
+                }
+                Err((sig, dd)) => rep.violate(&format!("{sig} decoder={}", DECODERS[c.decoder]), dd, json!({"index": idx, "decoder": DECODERS[c.decoder], "mutation": c.mutation})),
+            }
+        }
+        return rep;
+    }
     let total = args.size(200_000, 6_000_000) as u64;
     let only = replay_index(args);
     let (start, end, workers) = match only {
